@@ -37,8 +37,10 @@ ASSUMPTIONS = ["tolerance regime: scipy computes rotations in binary64, the mode
                "padded box faces is not compared"]
 UNPROVED = ["the automatic cell count is the rounded real cube-root expression: the model decides it exactly by integer cube comparisons "
             "(theorem roundCbrt_spec) but that np.round/** compute the same is observed, not proved",
-            "rot_quarter_is_rot90 is proved at the level of positions and values for the quarter turn about the third axis "
-            "(quarter_z_value); the other axis pairs and k are checked on the real code only"]
+            "rot_quarter_is_rot90 is proved for the quarter turn about the third axis with k=1 on cells square in the rotated plane "
+            "(index map of np.rot90 + C12's rotVec); the other 22 non-trivial lattice rotations are compared with Field.rotate90 on the real code only",
+            "that scipy's float Rotation/RegularGridInterpolator implement exact matrix algebra / multilinear interpolation up to rounding is the "
+            "contract validated by the correspondence run, not proved"]
 BUDGET = {"quick": 85, "thorough": 900}
 
 EULER_SEQS = ["xyz", "zyx", "zxz", "xyx", "yzy", "xzy", "XYZ", "ZYX", "ZXZ", "YXY", "XZX", "YZX"]
@@ -423,6 +425,10 @@ def run_impl(case):
                             obs["tags"].append("composed")
             else:
                 clean = False
+            if ok and not clean:
+                # outside the property's quantifier (it speaks of rotations, not of refused calls): the rotation of a
+                # refused call (bad n) stays in FieldRotator._rotation and is part of this result; modelled as the code does
+                obs["tags"].append("observation:rotation-of-refused-call-accumulated")
             steps.append(st)
         if not (np.array_equal(snap[0], f.array) and snap[1] == fieldio.mesh_json(f.mesh)):
             fail("rotating modified the original field")
